@@ -13,12 +13,15 @@ package c10
 import (
 	"bytes"
 	"fmt"
+	"os"
 	"reflect"
 	"runtime"
 	"sort"
 	"strings"
+	"sync"
 	"sync/atomic"
 	"testing"
+	"time"
 
 	"verif/engine/enum"
 	"verif/engine/rep"
@@ -102,9 +105,24 @@ type caseDesc struct {
 type checker struct {
 	r                                                        *rep.R
 	nStrictAcc, nLaxOnly, nRepaired, nRoundtrip, nMarshalErr atomic.Int64
-	nLaxOverlong, nDup                                       atomic.Int64
+	nLaxOverlong, nDup, nNotCanon                            atomic.Int64
 	classHits                                                [3]atomic.Int64
 	nestedLaxOnly                                            atomic.Int64
+	smu                                                      sync.Mutex
+	sampled                                                  map[string]bool
+}
+
+func (c *checker) firstSample(key string) bool {
+	c.smu.Lock()
+	defer c.smu.Unlock()
+	if c.sampled == nil {
+		c.sampled = map[string]bool{}
+	}
+	if c.sampled[key] {
+		return false
+	}
+	c.sampled[key] = true
+	return true
 }
 
 func kindSuffix(s *Shape) string {
@@ -231,7 +249,7 @@ func (c *checker) checkInput(t *typ, rawHead, fieldLax bool, b []byte, origin st
 			if t.s.K == KStruct || t.s.K == KSlice || strings.Contains(t.params, "explicit") {
 				c.nestedLaxOnly.Add(1)
 			}
-			if c.r.WantSample() && len(b) < 24 {
+			if len(b) < 24 && c.r.WantSample() && c.firstSample(n.classString()+"|"+t.group) {
 				c.r.Sample(map[string]any{"type": t.s.String(), "params": laxParams, "input": rep.Hex(b), "origin": origin, "class": n.classString(),
 					"strict": descr(S), "lax": descr(L), "repaired_input": rep.Hex(rb), "encoding/asn1_on_repaired": descr(E)})
 			}
@@ -249,17 +267,19 @@ func (c *checker) checkInput(t *typ, rawHead, fieldLax bool, b []byte, origin st
 		case pan:
 			c.r.Violation("marshal-panic"+kindSuffix(t.s), "fork Marshal panicked on a decoded value: "+msg+"\n"+stack, cd)
 		case merr != nil || !bytes.Equal(re, used):
-			// is it the fork's doing? compare with encoding/asn1's own round trip
+			// "strict DER value" = an encoding that encoding/asn1 itself reproduces; encodings that upstream
+			// does not reproduce either (RawValue ignoring explicit, trailing SEQUENCE elements, ...) are only counted
 			var sre []byte
-			var serr error
+			var serr error = fmt.Errorf("encoding/asn1 rejects")
 			if D.ok {
 				sre, serr = std.mar(D.ptr.Elem().Interface(), t.params)
 			}
-			sig := "roundtrip-mismatch"
 			if serr != nil || !bytes.Equal(sre, used) {
-				sig = "roundtrip-mismatch-also-in-encoding/asn1"
+				c.nNotCanon.Add(1)
+				c.nRoundtrip.Add(-1)
+				break
 			}
-			c.r.Violation(sig+kindSuffix(t.s), fmt.Sprintf("type %s params %q: strict DER %s decodes to %s but re-marshals to %x (err=%v)", t.s, t.params, rep.Hex(used), S.val, re, merr), cd)
+			c.r.Violation("roundtrip-mismatch"+kindSuffix(t.s), fmt.Sprintf("type %s params %q: strict DER %s decodes to %s but re-marshals to %x (err=%v); encoding/asn1 reproduces the input", t.s, t.params, rep.Hex(used), S.val, re, merr), cd)
 		}
 	}
 }
@@ -377,6 +397,14 @@ func (c *checker) bombs() {
 	}
 }
 
+var (
+	prof     = os.Getenv("VERIF_C10_PROF") != ""
+	profMu   sync.Mutex
+	profT    = map[string]time.Duration{}
+	profMax  time.Duration
+	profMaxT string
+)
+
 func TestCheck(t *testing.T) {
 	r := rep.New("C10", "exploration")
 	th := r.Thorough()
@@ -413,19 +441,35 @@ func TestCheck(t *testing.T) {
 		}
 		return len(ts[order[a]].vals) > len(ts[order[b]].vals)
 	})
+	tStart := time.Now()
 	done := enum.ParFor(len(ts), r.Expired, func(i int) {
 		x := ts[order[i]]
 		n := shortAll
 		if x.core {
 			n = shortCore
 		}
+		t0 := time.Now()
 		pan, msg, stack := enum.Catch(func() { c.runType(x, n) })
+		if prof {
+			profMu.Lock()
+			profT[x.group] += time.Since(t0)
+			if d := time.Since(t0); d > profMax {
+				profMax, profMaxT = d, x.String()
+			}
+			profMu.Unlock()
+		}
 		if pan {
 			r.Violation("harness-panic", msg+"\n"+stack, x.String())
 		}
 	})
 	if !done {
 		r.Capped("deadline reached before all types were run")
+	}
+	if prof {
+		fmt.Println("PROFILE parallel phase", time.Since(tStart), "slowest type", profMax, profMaxT)
+		for g, d := range profT {
+			fmt.Println("PROFILE", g, d)
+		}
 	}
 	c.bombs()
 	r.Set("strict_accepted_inputs", c.nStrictAcc.Load())
@@ -434,6 +478,7 @@ func TestCheck(t *testing.T) {
 	r.Set("lax_only_by_class", map[string]int64{classNames[0]: c.classHits[0].Load(), classNames[1]: c.classHits[1].Load(), classNames[2]: c.classHits[2].Load()})
 	r.Set("inputs_with_documented_malformation_in_lax_scope", c.nRepaired.Load())
 	r.Set("roundtrips_checked", c.nRoundtrip.Load())
+	r.Set("valid_encodings_not_reproduced_by_encoding/asn1_either", c.nNotCanon.Load())
 	r.Set("values_encoding/asn1_cannot_marshal", c.nMarshalErr.Load())
 	r.Set("duplicate_inputs_skipped", c.nDup.Load())
 	r.Finish()
